@@ -280,6 +280,40 @@ func c15Run(e *core.Env) {
 			}
 		}
 	}
+	// HUGE: exponents more than 100000 apart with equal digit-count + exponent sums (the lower-exponent operand
+	// carries a coefficient of more than 100000 digits): only the aligned coefficients decide
+	n := int64(0)
+	for _, ee := range [][2]int32{{-50000, 60000}, {-100000, 1}, {-99999, 100000}} {
+		gap := int(ee[1]) - int(ee[0])
+		pg := ref.Pow10(gap)
+		var H []Operand
+		for _, neg := range []bool{false, true} {
+			H = append(H, Fin(2, ee[1], neg), Fin(3, ee[1], neg), Fin(30, ee[1]-1, neg))
+			for _, c := range []int64{2, 3} {
+				base := new(big.Int).Mul(big.NewInt(c), pg)
+				for _, dl := range []int64{-1, 0, 1} {
+					H = append(H, FinBig(new(big.Int).Add(base, big.NewInt(dl)), ee[0], neg))
+				}
+			}
+		}
+		for i := range H {
+			for j := range H {
+				n++
+				if !e.Mine(n) {
+					continue
+				}
+				e.State()
+				e.Trans(4)
+				if msg := c15Cmp(H[i], H[j]); msg != "" {
+					fail("cmp", H[i], H[j], nil, msg)
+				}
+				if msg := c15Total2(H[i], H[j]); msg != "" {
+					fail("total2", H[i], H[j], nil, msg)
+				}
+				e.Outcome("cmp/gap>100000", false)
+			}
+		}
+	}
 	for i := range W {
 		if !e.Mine(int64(i)) {
 			continue
@@ -323,7 +357,7 @@ func init() {
 		Rule:  "all ordered pairs of the value alphabet V through Decimal.Cmp/Context.Cmp against exact comparison, and through CmpTotal against antisymmetry, zero-iff-identical and the documented order; all ordered triples of W for transitivity; every pair/triple is distinct and counted",
 		Bounds: func(tier string) string {
 			V, W := c15Values(tier)
-			return fmt.Sprintf("|V| = %d (DENSE + EDGE + zeros + clean/dirty infinities + coinciding digit-count+exponent family + LIMIT) => %d ordered pairs; |W| = %d (finite + all NaN/sNaN signs x payloads + infinities + limits) => %d ordered triples", len(V), len(V)*len(V), len(W), len(W)*len(W)*len(W))
+			return fmt.Sprintf("|V| = %d (DENSE + EDGE + zeros + clean/dirty infinities + coinciding digit-count+exponent family + LIMIT) => %d ordered pairs; HUGE: 3 exponent pairs more than 100000 apart x 18 operands with tying digit-count + exponent sums (coefficients of 100001+ digits), all ordered pairs; |W| = %d (finite + all NaN/sNaN signs x payloads + infinities + limits) => %d ordered triples", len(V), len(V)*len(V), len(W), len(W)*len(W)*len(W))
 		},
 		Run:    c15Run,
 		Replay: c15Replay,
